@@ -69,7 +69,7 @@ OwnerOnly == {"intoseq", "drop"}
 CfgOfModel == [len |-> SrcLen, nt |-> NT, hint |-> Hint, base |-> 100, consuming |-> TRUE,
                clones |-> FALSE, panicAt |-> PanicAt, revive |-> Revive, kind |-> "iter"]
 MonCfg(c) == [len |-> c.len, base |-> c.base, fam |-> "ticket", hint |-> c.hint,
-              consuming |-> c.consuming, clones |-> c.clones, nthreads |-> c.nt, extra |-> c.revive, kind |-> c.kind]
+              consuming |-> c.consuming, clones |-> c.clones, nthreads |-> c.nt, extra |-> c.revive, faults |-> c.panicAt, kind |-> c.kind]
 
 Ops ==
   LET on(k) == k \in OpKinds
